@@ -110,6 +110,11 @@ def r_direction(ctx):
             seen += 1
             kw = dict(ev.data["kwargs"])
             args = ev.data["args"]
+            # positional arguments are named after the callee's parameters
+            callee = solver_fn(ctx, "_solve_optimize_incremental")
+            pnames = [a_.arg for a_ in callee.args.posonlyargs + callee.args.args][1:]
+            for pn, av in zip(pnames, args):
+                kw.setdefault(pn, av)
             kind = kw.get("kind")
             obj_kind = A(A(SELF, "_objective"), "kind")
             want = ("phi", eq(obj_kind, K("minimize")), K("min"), K("max"))
@@ -183,6 +188,43 @@ def r_direction(ctx):
     ctx.floor("R-DIRECTION", "minimize/maximize wiring sites", branches, 4)
 
 
+def verdict_edge_facts(node, label, res):
+    """what an edge of a test on the verdict variable `res` establishes: a subset of {'not_unsat', 'not_unknown'}.
+    Understood spellings (any polarity, either operand order): res == z3.unsat / z3.unknown / z3.sat, res != ...,
+    res in (z3.unsat, z3.unknown), res not in (...)"""
+    if node.kind != "test" or res is None:
+        return set()
+    core, pos = C.strip_not(node.ast.test)
+    holds = (label == "T") == pos            # is the positive core true on this edge?
+    if not (isinstance(core, ast.Compare) and len(core.ops) == 1):
+        return set()
+    l, r = core.left, core.comparators[0]
+    if isinstance(core.ops[0], ast.Eq):
+        if isinstance(r, ast.Name) and r.id == res:
+            l, r = r, l
+        if not (isinstance(l, ast.Name) and l.id == res):
+            return set()
+        what = ast.unparse(r)
+        if what == "z3.sat":
+            return {"not_unsat", "not_unknown"} if holds else set()
+        if what == "z3.unsat":
+            return set() if holds else {"not_unsat"}
+        if what == "z3.unknown":
+            return set() if holds else {"not_unknown"}
+        return set()
+    if isinstance(core.ops[0], ast.In) and isinstance(l, ast.Name) and l.id == res and isinstance(r, (ast.Tuple, ast.List, ast.Set)):
+        members = {ast.unparse(e) for e in r.elts}
+        if holds:
+            return {"not_unsat", "not_unknown"} if members == {"z3.sat"} else set()
+        out = set()
+        if "z3.unsat" in members:
+            out.add("not_unsat")
+        if "z3.unknown" in members:
+            out.add("not_unknown")
+        return out
+    return set()
+
+
 def r_improve_loop(ctx):
     fn = solver_fn(ctx, "_solve_optimize_incremental")
     g = C.CFG(fn)
@@ -215,19 +257,7 @@ def r_improve_loop(ctx):
         return frozenset(f)
 
     def edge(n, lab, facts):
-        f = set(facts)
-        if n.kind == "test" and res is not None:
-            t = n.ast.test
-            if isinstance(t, ast.Compare) and len(t.ops) == 1 and isinstance(t.ops[0], ast.Eq) \
-                    and any(isinstance(x_, ast.Name) and x_.id == res for x_ in (t.left, t.comparators[0])):
-                rhs = ast.unparse(t.comparators[0] if (isinstance(t.left, ast.Name) and t.left.id == res) else t.left)
-                if rhs == "z3.unsat" and lab == "F":
-                    f.add("not_unsat")
-                if rhs == "z3.unknown" and lab == "F":
-                    f.add("not_unknown")
-                if rhs == "z3.sat" and lab == "T":
-                    f.update({"not_unsat", "not_unknown"})
-        return frozenset(f)
+        return frozenset(set(facts) | verdict_edge_facts(n, lab, res))
 
     facts = C.forward_must(g, frozenset(), transfer, edge)
     fm = facts[mdl.id]
@@ -609,6 +639,13 @@ def r_push_pop(ctx):
             writers = [n for n in g.nodes if counter in C.assigned_names(n) and n not in nxt]
             bad_writers = [w for w in writers if not (isinstance(w.ast, ast.Assign) and isinstance(w.ast.value, ast.Constant)
                                                       and w.ast.value.value == 0 and p.id in g.reachable(w) and w.id not in g.reachable(p))]
+            stray = [q for q in pops if q not in good_pops]
+            if stray:
+                ok_all = False
+                ctx.violation("R-PUSH-POP", where, "pop() besides the one that closes the counted scopes",
+                              f"`{stray[0].src()[:60]}` pops a scope that the final pop({counter}) pops again: more scopes are popped "
+                              f"than were pushed (z3 raises, or assertions of the problem itself are dropped)", srcline(stray[0]))
+                continue
             if path is None and not bad_writers:
                 continue
             ok_all = False
@@ -713,10 +750,21 @@ def r_model_typestate(ctx):
             ok = bool(defs)
             for d in defs:
                 if C.has_call(d, "_solver.model"):
-                    # every path from the entry to this read passes the unsat / unknown early returns
+                    # on every path from the check to this read the verdict was tested to be neither unsat nor unknown
                     chk = g.find(lambda x: C.has_call(x, "check_sat") or C.has_call(x, "_solver.check"))
-                    tests = g.find(lambda x: x.kind == "test" and "z3.unsat" in x.src()) + g.find(lambda x: x.kind == "test" and "z3.unknown" in x.src())
-                    ok = ok and bool(chk) and len(tests) >= 2 and all(g.path_avoiding(chk[0], d, lambda z, t=t: z is t) is None for t in tests)
+                    if chk:
+                        res_names = C.assigned_names(chk[0])
+                        res_v = res_names[0] if res_names else None
+
+                        def transfer(n_, facts_):
+                            return frozenset({"checked"}) if n_ is chk[0] else facts_
+
+                        def edge(n_, lab_, facts_):
+                            return frozenset(set(facts_) | verdict_edge_facts(n_, lab_, res_v))
+                        fm = C.forward_must(g, frozenset(), transfer, edge)[d.id]
+                        ok = ok and {"checked", "not_unsat", "not_unknown"} <= fm
+                    else:
+                        ok = False
                 elif C.has_call(d, "_solve_optimize_incremental"):
                     nxt = g.find(lambda x: x.kind == "test" and ast.unparse(x.ast.test).replace(" ", "") == f"not{src_name}")
                     ok = ok and bool(nxt) and g.path_avoiding(d, w, lambda z: z in nxt) is None
